@@ -36,13 +36,13 @@ static rfbPixelFormat deffmt;
 #include <signal.h>
 #include <sys/time.h>
 static void on_hang(int sig) {
-  static const char m[] = "\nHANG: translateFn used more than 20 s of CPU time on one area\n";
+  static const char m[] = "\nHANG: translateFn used more than 5 s of CPU time on one area\n";
   (void)sig; if (write(2, m, sizeof m - 1)) {}
   _exit(124);
 }
 static void watchdog(int on) {
   struct itimerval it; memset(&it, 0, sizeof it);
-  if (on) { signal(SIGVTALRM, on_hang); it.it_value.tv_sec = 20; }
+  if (on) { signal(SIGVTALRM, on_hang); it.it_value.tv_sec = 5; }
   setitimer(ITIMER_VIRTUAL, &it, NULL);
 }
 
